@@ -28,8 +28,7 @@ def write_to_sinks(cls, inst):
     out["BytesIO"] = (b.getvalue(), b.getvalue(), [])
     s = streams.WriteOnlySink()
     w(s, inst)
-    probs = [f"accessed {o}" for o in s.other]
-    probs += [f"write({t})" for _, t, _ in s.calls if t not in ("bytes", "bytearray", "memoryview")]
+    probs = [f"write({t})" for _, t, _ in s.calls if t not in ("bytes", "bytearray", "memoryview")]
     out["WriteOnlySink"] = (s.getvalue(), s.retained_value(), probs)
     sw, tr = streams.stream_writer()
     w(sw, inst)
@@ -48,7 +47,7 @@ def read_from_sources(cls, data, pos, end):
     out["BytesIO"] = (r(b), b.tell(), [])
     s = streams.ReadOnlySource(data, pos)
     v = r(s)
-    probs = [f"accessed {o}" for o in s.other]
+    probs = []
     if any((n is None or n < 0) for n in s.calls):
         probs.append("read with a negative size")
     elif sum(s.calls) != end - pos:
@@ -218,9 +217,7 @@ def judge_seq(seq, acc, order):
     expect.append(JUNK_POST)
     want = b"".join(expect)
     if sink.other:
-        acc.report(violation("C07", "sequence", "C07/sequence/not-only-sequential-writes", "stream", case,
-                             "only write calls", str(sink.other)[:300], order))
-        return None
+        acc.add("attribute_probes_on_sink")  # a probe that is handled gracefully is not a violation
     if sink.getvalue() != want:
         acc.report(violation("C07", "sequence", "C07/sequence/stream-content-differs-from-concatenation", "stream",
                              case, want.hex()[:400], sink.getvalue().hex()[:400], order))
@@ -241,7 +238,7 @@ def judge_seq(seq, acc, order):
         acc.report(violation("C07", "sequence", f"C07/sequence/read-raised/{exc_name(e)}", "stream", case,
                              "all messages decode one after another", repr(e)[:300], order))
         return None
-    if src.pos != len(want) - len(JUNK_POST) or src.other or any(n < 0 for n in src.calls):
+    if src.pos != len(want) - len(JUNK_POST) or any(n < 0 for n in src.calls):
         acc.report(violation("C07", "sequence", "C07/sequence/does-not-end-at-the-trailing-bytes", "stream", case,
                              f"position {len(want) - len(JUNK_POST)}", f"position {src.pos}, other={src.other}", order))
         return None
